@@ -93,7 +93,9 @@ def main():
     cenv = dict(os.environ, VERIF_TIER=a.tier)
     if a.alt:
         shutil.rmtree(altrepo, ignore_errors=True)
-        shutil.copytree("/repo", altrepo, ignore=shutil.ignore_patterns(".git"))
+        # the committed tree, not the working tree: another job may have a seed applied to /repo right now
+        os.makedirs(altrepo)
+        subprocess.run("git -C /repo archive HEAD | tar -x -C " + altrepo, shell=True, check=True)
         rc, out = sh(["git", "apply", patch], cwd=altrepo)
         cenv["VERIF_REPO"] = altrepo
     else:
